@@ -56,7 +56,7 @@ func init() {
 		}
 		spec := &mc.Spec{
 			Level: "exploration",
-			Rule: "Reset: a real program (fsgen) creates every subset of ≤ maxKinds residue kinds out of 12 (deep path, path longer than PATH_MAX, mode-000 directory with content, hidden names, dangling / host / self symlinks, FIFO, socket, hard links, 2000 entries, file held open by a surviving process, read-only directory, weird names) in every tmpfs mount of the container (work dir, /tmp, a tmpfs nested in the work dir, a tmpfs with size options, two tmpfs whose names extend the names of earlier ones), with and without credential switching, in the histories run→Reset and run→run→Reset; " +
+			Rule: "Reset: a real program (fsgen) creates every subset of ≤ maxKinds residue kinds out of 12 (deep path, path longer than PATH_MAX, mode-000 directory with content, hidden names, dangling / host / self symlinks, FIFO, socket, hard links, 2000 entries, file held open by a surviving process, read-only directory, weird names) in every tmpfs mount of the container (work dir, /tmp, a tmpfs nested in the work dir, a tmpfs with size options, two tmpfs whose names extend the names of earlier ones), with and without credential switching, in the histories run→Reset and run→run→Reset, the last run ending by itself or refused by the caller's sync callback after the program already ran (sync after exec); " +
 				"afterwards every tmpfs mount must be empty as seen from the host through /proc/<init>/root. memfd: sizes {0,1,4095,4096,4097,65536,1 MiB+1} × byte patterns × reader behaviours (whole, one byte at a time, failing midway); content, offset and seals checked; every modification attempt by the holder of the descriptor and by a program exec'ed from the sealed file (on its own image and on a second sealed descriptor) must leave the bytes unchanged. " +
 				"non-trivial: at least one residue kind / size > 0; distinct = (kinds, credential mode, history, listing) or (size, pattern, reader, attack results)",
 			Bound:       map[string]any{"max_kinds": maxKinds, "tmpfs_mounts": c13tmpfs},
@@ -89,10 +89,16 @@ func init() {
 				kinds = append(kinds, c13kinds[k])
 				last = k
 			}
+			// how the (last) run ends: by itself, or refused by the caller's sync callback after the program already ran
+			// (sync after exec) — the residue is the same, the container's bookkeeping of the run is not
+			refused := false
+			if n >= 1 && (tier == "thorough" || n <= 2) {
+				refused = x.Bool("run-refused-after-exec")
+			}
 			if x.Dry() {
 				return
 			}
-			c13reset(x, string(kinds), cred, twoRuns)
+			c13reset(x, string(kinds), cred, twoRuns, refused)
 		}
 		return spec
 	}
@@ -134,7 +140,7 @@ func c13get(cred bool) (*c12env, error) {
 	return e, nil
 }
 
-func c13reset(x *mc.X, kinds string, cred, twoRuns bool) {
+func c13reset(x *mc.X, kinds string, cred, twoRuns, refused bool) {
 	var names []string
 	for i := 0; i < len(kinds); i++ {
 		names = append(names, c13kindName[kinds[i]])
@@ -155,20 +161,55 @@ func c13reset(x *mc.X, kinds string, cred, twoRuns bool) {
 			os.Chmod(root+d, 0777)
 		}
 	}
-	run := func(k string) runner.Result {
+	count := func() int {
+		n := 0
+		for _, d := range dirs {
+			n += len(listDir(root + d))
+		}
+		return n
+	}
+	run := func(k string, refuse bool) runner.Result {
 		ctx, cancel := context.WithTimeout(context.Background(), 60*time.Second)
 		defer cancel()
 		p := execveParam(append([]string{"/probe/fsgen", k}, dirs...))
+		if refuse {
+			p.SyncAfterExec = true
+			p.SyncFunc = func(int) error {
+				// the program is already running: let it leave its residue (entry count > 0 and stable), then refuse the run
+				last, same := -1, 0
+				waitUntil(10*time.Second, func() bool {
+					c := count()
+					if c > 0 && c == last {
+						same++
+					} else {
+						same = 0
+					}
+					last = c
+					time.Sleep(10 * time.Millisecond)
+					return same >= 5
+				})
+				return errCallback
+			}
+		}
 		return e.c.Execve(ctx, p)
 	}
+	x.Note("last-run-refused-after-exec", refused)
 	if kinds != "" {
-		if res := run(kinds); res.Status != runner.StatusNormal {
+		first, second := kinds, "hx"
+		res := run(first, refused && !twoRuns)
+		if refused && !twoRuns {
+			if res.Status != runner.StatusRunnerError {
+				x.Failf("C13/harness", "refused run of fsgen %q ended %v %s", kinds, res.Status, res.Error)
+				c13drop()
+				return
+			}
+		} else if res.Status != runner.StatusNormal {
 			x.Failf("C13/harness", "fsgen %q ended %v %s", kinds, res.Status, res.Error)
 			c13drop()
 			return
 		}
 		if twoRuns {
-			run("hx") // a second program adds its own residue on top
+			run(second, refused) // a second program adds its own residue on top
 		}
 	}
 	created := 0
@@ -201,7 +242,7 @@ func c13reset(x *mc.X, kinds string, cred, twoRuns bool) {
 		}
 	}
 	if kinds != "" {
-		x.Distinct(fmt.Sprint(kinds, cred, twoRuns, left, rerr))
+		x.Distinct(fmt.Sprint(kinds, cred, twoRuns, refused, left, rerr))
 	}
 	x.Outcome(fmt.Sprintf("reset:err=%v:left=%d:created>0=%v", rerr != nil, total, created > 0))
 	if kinds != "" && created == 0 {
@@ -212,7 +253,7 @@ func c13reset(x *mc.X, kinds string, cred, twoRuns bool) {
 		if rerr != nil {
 			key = "C13/reset/entries-survive-with-error/" + strings.Join(names, "+")
 		}
-		x.Failf(key, "after residue %v (credential switch %v, two runs %v) Reset returned %v and these entries remain: %v", names, cred, twoRuns, rerr, left)
+		x.Failf(key, "after residue %v (credential switch %v, two runs %v, last run refused by the sync callback after exec %v) Reset returned %v and these entries remain: %v", names, cred, twoRuns, refused, rerr, left)
 		c13drop() // do not let this residue leak into later executions
 		return
 	}
